@@ -22,6 +22,7 @@ PY = {
     "try": (["try:"], ["except E:", "    x = 0"]),
     "except-deep": (["try:", "    x = 0", "except E:"], []),
     "finally-deep": (["try:", "    x = 0", "finally:"], []),
+    "match": (["match v:", "    case 1:"], ["    case _:", "        x = 0"]),
 }
 TS = {
     "if": (["if (c) {"], ["}"]),
@@ -58,7 +59,7 @@ RS = {
 }
 TABLE = {"python": PY, "typescript": TS, "javascript": TS, "rust": RS}
 UNIT = {"python": 4, "typescript": 2, "javascript": 2, "rust": 4}
-EXTRA = {("typescript", "switch"): 1, ("javascript", "switch"): 1, ("rust", "match"): 1}
+EXTRA = {("typescript", "switch"): 1, ("javascript", "switch"): 1, ("rust", "match"): 1, ("python", "match"): 1}
 COMMON = ("if", "if-else", "else-deep", "elif", "for", "while")
 
 
@@ -104,7 +105,7 @@ def function(lang, name, kind, chain, sibling=False):
     ind = lambda ls, k: [(" " * (u * k) + l) if l else l for l in ls]
     if lang == "python":
         if kind == "function":
-            return [f"def {name}(c, d, xs, m):"] + ind(body, 1), 0
+            return [f"def {name}(c, d, xs, m, v=0):"] + ind(body, 1), 0
         if kind == "async":
             return [f"async def {name}(c, d, xs, m):"] + ind(body, 1), 0
         if kind == "method":
